@@ -26,9 +26,9 @@ import (
 // CCase is one concurrent case.
 type CCase struct {
 	World string `json:"world,omitempty"` // see Case.World
-	Kind  string `json:"kind"`  // "concurrent"
-	Pre   []Case `json:"pre"`   // sequential round trips before the burst (streamed responses)
-	Burst []Case `json:"burst"` // sent at the same instant, answered together
+	Kind  string `json:"kind"`            // "concurrent"
+	Pre   []Case `json:"pre"`             // sequential round trips before the burst (streamed responses)
+	Burst []Case `json:"burst"`           // sent at the same instant, answered together
 }
 
 func genConcMember(r *rand.Rand, k int, h2 bool) Case {
